@@ -66,7 +66,7 @@ def observe(case, pattern_tree):
                min_words=case['minWords'],
                explain_minimums=None if case['explainMin'] == 'none' else case['explainMin'],
                explain_validation=None if case['explainVal'] == 'none' else case['explainVal'],
-               invalid_msg=INVALID_MARK,
+               invalid_msg=INVALID_MARK, debug=bool(case.get('debug', False)),
                answers={'expect': text(case['expect'], nb_of(case)), 'msg': ANS_MARK})
     if pattern_tree is not None:
         cfg['validation_pattern'] = render(pattern_tree)
@@ -81,6 +81,15 @@ def observe(case, pattern_tree):
         return 'other:%s' % type(e).__name__
     if set(r) != {'ok', 'grade_decimal', 'msg'}:
         return 'other:keys'
+    if case.get('debug'):
+        # the debugging text is appended to the message; it is not part of the outcome class
+        cut = r['msg'].find('<pre>MITx Grading Library')
+        if cut < 0:
+            return 'other:no-debug-text'
+        head = r['msg'][:cut]
+        while head.endswith('<br/>\n'):
+            head = head[:-6]
+        r = dict(r, msg=head)
     if r['ok'] is True and r['grade_decimal'] == 1 and r['msg'] == ANS_MARK:
         return 'accept'
     if r['ok'] is False and r['grade_decimal'] == 0:
@@ -208,7 +217,8 @@ def rand_cases(rng, n):
             elif inp:
                 inp[min(pos, len(inp) - 1)] = rng.choice(alpha)
         c = {'id': i, 'f': f, 'expect': expect, 'input': inp, 'any': False, 'nonempty': False, 'minLength': 0,
-             'minWords': 0, 'explainMin': 'err', 'explainVal': 'err', 'pattern': {'k': 'none'}}
+             'minWords': 0, 'explainMin': 'err', 'explainVal': 'err', 'pattern': {'k': 'none'},
+             'debug': rng.random() < .25}
         if mode == 'any':
             c['any'] = rng.random() < .6
             c['nonempty'] = (not c['any']) or rng.random() < .3
